@@ -83,4 +83,39 @@ def finvB (p : Proc) : Bool :=
 
 def FInv (p : Proc) : Prop := finvB p = true
 
+/-! ### the two further conjuncts the restart theorems need (found by the prover: `FInv` alone allows an empty tail file
+    that is durably sealed, and says too little about the committed segment list of a stopped process — with either,
+    Open fails or leaves a state that is not quiescent; both refuted by concrete witnesses in FaultLemmasD3) -/
+
+/-- running process: a tail file that carries a seal (durable or left behind by a failed call) is not empty -/
+def fextraRunB (d : Disk) : Bool :=
+  match d.md.segs.getLast? with
+  | none => true
+  | some t =>
+    match d.file? t.id with
+    | none => true
+    | some f => !(f.sealedS || f.sealedP) || !(f.synced ++ f.pending).isEmpty
+
+/-- stopped process: the committed segment list is well-formed — every segment but the last is sealed and agrees
+    with its file, the chain is contiguous, identifiers are distinct and below NextSegmentID, the new tail (whose file
+    could not be created) starts at its base — i.e. `quiescentB` of the committed state minus what it says about the
+    tail's file and about files no segment names -/
+def fextraStopB (d : Disk) : Bool :=
+  match d.md.segs.getLast? with
+  | none => false
+  | some n =>
+    d.md.segs.dropLast.all (fun s => fileOK d s false) && chainOK d.md.segs && nodupB (d.md.segs.map (·.id)) &&
+    d.md.segs.all (fun s => decide (s.id < d.md.nextID)) && decide (n.min = n.base) && decide (1 ≤ n.base)
+
+def fextraB (p : Proc) : Bool :=
+  match p.frozen with
+  | none => fextraRunB p.disk
+  | some _ => fextraStopB p.disk
+
+/-- the invariant of a (possibly faulted) process between calls -/
+def FInvS (p : Proc) : Prop := FInv p ∧ fextraB p = true
+
+/-- executable form (what the correspondence harness evaluates) -/
+def finvSB (p : Proc) : Bool := finvB p && fextraB p
+
 end RaftWal.Fault
